@@ -177,7 +177,7 @@ def check_C18(run, replay):
                 "every threshold in {each probability, each midpoint of two probabilities, half of each probability, "
                 "-1, 0, 1, 2, NaN, +inf, -inf}; checks TruncValid / SupportExact / Proportional / NoOpBelowMin / Idempotent "
                 "of the specified Truncate on each; each case is replayed into from_named -> truncate -> dense vector; "
-                "non-trivial = some infoset has an action above the threshold; distinct by canonical JSON")
+                "non-trivial = some infoset has an action above the threshold; distinct by canonical JSON; ownership variants in which one player owns infosets of 3, 2 and 4 actions")
     run.assumptions = ["probabilities w/total and thresholds n/d are correctly rounded f64 divisions of small integers, so "
                        "comparisons at a probability are decided identically in f64 and in exact arithmetic"]
     if replay:
@@ -198,7 +198,7 @@ def check_C19(run, replay):
                 "2-action and a 3-action infoset and player two has none or one 2-action infoset x exponents "
                 "{1/2,1,3/2,2,3,10,0,-1}; emits which players' strategies coincide and whether the call must panic, and "
                 "checks the demanded facts on a reference distance; each pair is replayed into distance() both ways round "
-                "(and against itself); non-trivial = positive p and the profiles differ; distinct by canonical JSON")
+                "(and against itself); non-trivial = positive p and the profiles differ; distinct by canonical JSON; profiles that differ by 2.5e-4 / 2.5e-7; identity of game objects for all pairs of shapes (with / without several-action infosets)")
     run.assumptions = ["symmetry is judged bitwise or within 1e-15"]
     if replay:
         cases, rows = replay_pipeline(run, "dist", replay_case(replay)["case"])
@@ -222,7 +222,7 @@ def check_C14(run, replay):
                 "x scale classes {1, 2^-1070, 2^1000, 2^1023}, with the other player's list valid or empty, on two games that "
                 "share names between players and have single-action infosets; every state checks ImportMatchesDeclarative "
                 "(operational fold = documented contract) and is replayed into from_named and from_named_eq; "
-                "distinct by canonical JSON; every case is non-trivial (it exercises the import)")
+                "distinct by canonical JSON; every case is non-trivial (it exercises the import); a game in which one player never moves")
     run.assumptions = ["'covered' for a single-action infoset means: mentioned with its action and a valid weight (taken from "
                        "the code, DESIGN 4 C14 limits)"]
     if replay:
@@ -258,7 +258,7 @@ def check_C13(run, replay):
                 "`harness record named` walks as_named() of imported (pure / sparse / full), truncated and solved (Full / "
                 "Sampled / External, T in {0,1,5,50}) profiles on seeded games with single-action infosets, len() before "
                 "every next() and after exhaustion, plus the from_named(as_named()) round trip; TLC validates every event "
-                "against Trace_NamedView.tla; one 'evaluation' = one walked profile; distinct = distinct (game, label) runs")
+                "against Trace_NamedView.tla; one 'evaluation' = one walked profile; distinct = distinct (game, label) runs; internal iteration: fresh iterators consumed by count / fold / last / nth and for_each must list the same items")
     run.assumptions = ["round trip judged at 1e-13 relative per entry", "order of single-action infosets is left open by the spec"]
     res = tlc("MC_NamedView", timeout=600)
     run.add_tlc(res)
@@ -314,7 +314,7 @@ def check_C11(run, replay):
                 "CompactPreservesSemantics / PrevLinksWellFounded of Build.tla against Contract.tla on each and replays each "
                 "into from_root (verdict, error kind, renumbering-invariant compact game, evaluation and 3-iteration solves "
                 "on accepted trees); (b) U-edit: seeded valid trees (depth<=5) x every single edit of the catalogue at every "
-                "node, judged by the same TLA+ operators; distinct by canonical JSON; every tree exercises construction")
+                "node, judged by the same TLA+ operators; distinct by canonical JSON; every tree exercises construction; edits that repeat an action name apart / at every node of the infoset; num_infosets() against the specified count")
     run.assumptions = ["integer chance weights (so equal distributions normalise to identical f64 vectors)",
                        "R3s (one-outcome chance node sharing a label) and R8 (non-finite payoff) acceptances are listed known findings"]
     if replay:
@@ -372,7 +372,7 @@ def check_C08(run, replay):
                 "bounds and the returned normalised average; half of the scale-invariant cases are run with payoffs and regrets "
                 "multiplied by 2^-70 or 2^60 (positive homogeneity; exact in binary floating point); "
                 "two-step: the same from injected states with exact parameters over TWO consecutive iterations (MC_CfrStep2: state "
-                "carried between iterations besides the three accumulators); non-trivial = every case; distinct by canonical JSON")
+                "carried between iterations besides the three accumulators); non-trivial = every case; distinct by canonical JSON; the exact trajectory cases include a game whose two-thread passes cut a real frontier; chance nodes reach the library unlabelled")
     run.assumptions = ["irrational discount factors t^e/(t^e+1), (t/(t+1))^g and the finite-weight softmax are evaluated by "
                        "the harness with f64 powf/exp from the documented formulas (DESIGN 3.1)",
                        "comparison tolerance 1e-10 relative"]
@@ -454,7 +454,7 @@ def check_C02(run, replay):
                 "dominated actions, flat payoffs, a player without decisions) and seeded games x budgets {1,4,25,100,400,2500"
                 "(,10000)} x threads {1,2,4(,3,8,16)} x thresholds just below / just above / three times each bound seen; "
                 "each run is an event validated by Trace_Solve.tla (bound >= regret in directed micro-units, non-negative, "
-                "total = max, early stop => regret < threshold); distinct = distinct run events")
+                "total = max, early stop => regret < threshold); distinct = distinct run events; large card games (67 / 1025 infosets of one player) with 2 and 3 threads")
     run.assumptions = ["beyond T=3 the true regret is get_info() (validated exactly by C01 on the same kinds of games)",
                        "micro-unit comparison is sound in the direction used (a true inequality is never reported false)"]
     if replay:
@@ -480,7 +480,7 @@ def check_C03(run, replay):
                 "k in {1(,4)} on U-zoo (adversarial families at full size) and seeded games; Trace_Solve.tla recomputes D, N, A "
                 "from the raw tree and checks the vanilla per-player envelope 2DN sqrt(A)/sqrt(T) on the bounds and the "
                 "preset envelope 6DN(sqrt(A)+1/sqrt(T))/sqrt(T) on the true regret; non-trivial = every run; distinct = "
-                "distinct run events")
+                "distinct run events; large card games (67 / 1025 infosets of one player) with 2 and 3 threads")
     run.assumptions = ["true regret = get_info() (C01)", "finite envelopes at the listed budgets stand in for 'tends to zero'"]
     n = 300 if run.tier == "quick" else 3000
     cases, rows = oracle_cases(run, "MC_CfrRun", "run", "run", n, "exact", gen_extra=["--vanilla-full", "1"])
@@ -501,7 +501,7 @@ def check_C04(run, replay):
                 "(b) monitor: solve({Sampled,External}, T in {100,2500}, k in {1,2(,8)}, presets) under seeded replayable "
                 "draws on U-zoo and seeded games; Trace_Solve.tla checks regret <= D N sqrt(A)/sqrt(T) per run and the corpus "
                 "statistics (most games below 1% of the payoff range at T=2500 and at most half of their T=100 value); "
-                "distinct = distinct run events")
+                "distinct = distinct run events; chance nodes declared without an infoset reach the library unlabelled; the coins game (two independent fair coins on one path)")
     run.assumptions = ["statistical property: seeds and corpus are fixed; the unchanged code passes the envelope with a "
                        "measured margin of about 20x (DESIGN 4 C04)", "true regret = get_info() (C01)",
                        "games in which a chance infoset repeats on one path are excluded from the lemma and the corpus "
@@ -670,7 +670,7 @@ def check_C06(run, replay):
                 "chain of depth 8) with generic payoffs: every pass (frontier, tasks, nodes entered, cache hits) validated "
                 "against Trace_Par.tla and the result compared with one thread at 1e-9; thresholded runs (budget 12 / 30, thresholds "
                 "midway between consecutive distinct per-player bounds) stop after the same iteration as one thread; non-trivial = the frontier cut "
-                "produced tasks below the root; distinct by (game, method, k, T)")
+                "produced tasks below the root; distinct by (game, method, k, T); a parameter set with average-strategy exponent 1000; large games (chain of depth 130, 67 / 1025 card games): result of 2, 3, 4 threads against one")
     run.assumptions = ["schedules of the real thread pool are sampled (repetitions, injected yields in thorough), the "
                        "exhaustive argument over shapes lives in the model", "generic payoffs avoid exact ties (DESIGN 3.4)"]
     res = tlc("MC_Par", cfg="MC_Par_Full_TRUE" if run.tier == "quick" else "MC_Par_Full_TRUE_thorough", timeout=6000, xmx="16g")
@@ -695,7 +695,7 @@ def check_C07(run, replay):
                 "(at most one draw per infoset and pass and only at allowed sites, frontier, exactly-once visits of the "
                 "sampled tree, all lock attempts succeed) and compared with one thread at 1e-9; plus thresholded runs (budget 12 / 30, "
                 "thresholds midway between consecutive distinct per-player bounds of the one-thread run): same number of "
-                "iterations, strategies and bounds as one thread")
+                "iterations, strategies and bounds as one thread; DeclOK: two chance nodes share an infoset iff declared with the same label (the library receives unlabelled chance nodes unlabelled); large games as in C06")
     run.assumptions = ["draws pinned through the hook (a pure function of site, infoset and pass)", "as C06"]
     res = tlc("MC_Par", cfg="MC_Par_External_TRUE" if run.tier == "quick" else "MC_Par_External_TRUE_thorough", timeout=6000, xmx="16g")
     run.add_tlc(res)
@@ -717,7 +717,7 @@ def check_C12(run, replay):
                 "the harness feeds both presentations to from_root / get_info / solve(Full) and compares with the exact "
                 "values and with each other under the stated relation for budgets {1,3,10,100(,2,1000)} x presets (integer "
                 "payoffs and 1e-12 where both sides perform the same operations, generic payoffs and 1e-9 for shift and "
-                "scale by 3, 7); distinct by canonical JSON; every case is non-trivial")
+                "scale by 3, 7); distinct by canonical JSON; every case is non-trivial; rescale of ONE node of a shared chance infoset (also by 3/10, 7/10 on power-of-two weights); the relations also between two-thread solves")
     run.assumptions = ["finite non-zero softmax weights are excluded for payoff scaling (strategies cannot be invariant there)",
                        "leaf order is preserved by every transformation (used to perturb payoffs consistently)"]
     if replay:
@@ -754,7 +754,7 @@ def check_C10(run, replay):
                 "are exactly the tree that follows the drawn outcomes, chance draws made from the declared normalised "
                 "weights, player draws from the current strategy where it is known exactly, reset counters; (c) frequencies: "
                 "flat-payoff games with injected skewed strategies, 1000 draws per distribution tallied by TLC, chi-square "
-                "below the 1-1e-9 quantile; distinct = distinct table entries + distinct pass events")
+                "below the 1-1e-9 quantile; distinct = distinct table entries + distinct pass events; DeclOK (chance nodes declared without an infoset are infosets of their own)")
     run.assumptions = ["the one genuinely random test: false-alarm probability below 1e-9 per tested distribution (at most 12 per run)",
                        "the alias-table sampler of rand_distr is observed statistically only",
                        "at exact interval endpoints either adjacent index is admissible; endpoints of non-dyadic vectors are not judged"]
@@ -845,7 +845,7 @@ def check_C15(run, replay):
                 "the game as written (Game.tla) whenever they are small rationals; the printed utilities, regrets and their "
                 "relations are compared with these values and with the library's evaluation on the independently built "
                 "game; for the unsampled method and exact budgets also with the strategies of Cfr.tla; distinct by "
-                "canonical JSON of (game, argv, document text)")
+                "canonical JSON of (game, argv, document text); action names with quotes and backslashes; every other -o run finds an older, longer result at the destination")
     run.assumptions = ["-t 0 with -r 0 (no limit at all) is excluded: it does not terminate by design",
                        "printed strategies with large denominators are evaluated by the library only (instrument validated by C01)"]
     cases, rows = cli_check(run, "c15", 10 if run.tier == "quick" else 60)
